@@ -171,7 +171,85 @@ func randSplit(rng *rand.Rand, mw int) chainSplit {
 
 var chainRng = rand.New(rand.NewSource(seed()))
 
+// chainLimit: a route whose chain has n handlers WITHOUT any global middleware (n-1 route/group middleware + main):
+// registration must accept it iff the model says so; an accepted chain must run in order and Abort() at its first
+// handler must stop it.
+func chainLimit(s *Summary, n int, accepted bool) {
+	for _, viaGroup := range []bool{false, true} {
+		for _, abortFirst := range []bool{false, true} {
+			log := []int{}
+			aborted := []bool{}
+			mk := func(i int) rux.HandlerFunc {
+				return func(c *rux.Context) {
+					log = append(log, i)
+					aborted = append(aborted, c.IsAborted())
+					if abortFirst && i == 1 {
+						c.Abort()
+					}
+				}
+			}
+			mw := make([]rux.HandlerFunc, n-1)
+			for i := range mw {
+				mw[i] = mk(i + 1)
+			}
+			r := rux.New()
+			var pan any
+			func() {
+				defer func() { pan = recover() }()
+				if viaGroup {
+					half := len(mw) / 2
+					r.Group("/g", func() { r.GET("/x", mk(n), mw[half:]...) }, mw[:half]...)
+				} else {
+					r.GET("/g/x", mk(n), mw...)
+				}
+			}()
+			s.Compared++
+			desc := func(what string) map[string]any {
+				return map[string]any{"kind": "chain", "aspect": "limit", "chain_len": n, "what": fmt.Sprintf(
+					"route with %d middleware + main (no global middleware, via group=%v): %s", n-1, viaGroup, what)}
+			}
+			if (pan == nil) != accepted {
+				s.mismatch(desc(fmt.Sprintf("registration accepted=%v, the documented limit says %v", pan == nil, accepted)), map[string]any{"limit": n})
+				return
+			}
+			if pan != nil {
+				continue
+			}
+			rw := &recWriter{hdr: http.Header{}}
+			r.ServeHTTP(rw, &http.Request{Method: "GET", URL: &url.URL{Path: "/g/x"}, Header: http.Header{}, Proto: "HTTP/1.1"})
+			want := n
+			if abortFirst {
+				want = 1
+			}
+			okOrder := len(log) == want
+			for i := range log {
+				okOrder = okOrder && log[i] == i+1 && !aborted[i]
+			}
+			if !okOrder {
+				s.mismatch(desc(fmt.Sprintf("abort at the first handler=%v: handlers run %v (IsAborted on entry %v), expected 1..%d without a spurious IsAborted", abortFirst, log, aborted, want)), map[string]any{"limit": n})
+				return
+			}
+		}
+	}
+}
+
 func chainReplay(s *Summary, raw json.RawMessage) {
+	if strings.HasPrefix(string(raw), `{"limit"`) {
+		var l struct {
+			Limit []struct {
+				N        int  `json:"n"`
+				Accepted bool `json:"accepted"`
+			} `json:"limit"`
+		}
+		if err := json.Unmarshal(raw, &l); err != nil {
+			fatal("bad limit line: %v", err)
+		}
+		s.Cases--
+		for _, e := range l.Limit {
+			chainLimit(s, e.N, e.Accepted)
+		}
+		return
+	}
 	var c chainCase
 	if err := json.Unmarshal(raw, &c); err != nil {
 		fatal("bad chain case: %v", err)
@@ -252,16 +330,18 @@ func chainRunOnce(s *Summary, c *chainCase, sp chainSplit) {
 			if len(gA) > 0 {
 				r.Use(gA...)
 			}
-		case "notfound":
+		case "notfound": // global middleware registered before AND after the fallback handlers
 			k := (n - 1) / 2
-			r.Use(hs[:k]...)
+			r.Use(hs[:k/2]...)
 			r.NotFound(hs[k:]...)
+			r.Use(hs[k/2 : k]...)
 			r.GET("/other", nopHandler)
 			path = "/missing"
 		case "notallowed":
 			k := (n - 1) / 2
-			r.Use(hs[:k]...)
+			r.Use(hs[:k/2]...)
 			r.NotAllowed(hs[k:]...)
+			r.Use(hs[k/2 : k]...)
 			r.POST("/g/h/x", nopHandler)
 		}
 		if c.OnError != nil {
